@@ -165,7 +165,7 @@ def execute(case, prefix: Sequence[int], line_level: bool) -> Dict[str, Any]:
             fo = ds.formatter
             dss.append((tuple(m.header.msg_count for m in ds.rbuf), tuple(m.header.msg_count for m in ds.wbuf), ds.subdivide_flag, ds.sub_index,
                         ds.next_subdivide, ds.collection_stopped, fsz, getattr(fo, "num_writes", 0), len(getattr(fo, "offsets", ()))))
-        return (tuple(frames), state_src["idx"], c.write_to_disk.flag, c.write_finished.flag, c._recording, c._paused, c._close, c.next_write,
+        return (tuple(frames), state_src["idx"], tuple(l.owner.name if l.owner else None for l in sched.locks), c.write_to_disk.flag, c.write_finished.flag, c._recording, c._paused, c._close, c.next_write,
                 Clock.t, tuple(dss))
 
     traced = [dc.__file__, dsm.__file__, dfm.__file__, qlm.__file__]
@@ -423,35 +423,55 @@ def scripts(n: int) -> List[Tuple[str, ...]]:
     return out
 
 
+HOT2 = [("flush", "flush"), ("flush", "early"), ("flush", "restart"), ("restart", "flush"), ("subdiv", "early"), ("flush", "none"), ("early", "restart"),
+        ("subdiv", "subdiv"), ("flush", "pause")]
+HOT3 = [("flush", "restart", "flush"), ("early", "restart", "subdiv"), ("flush", "flush", "early"), ("subdiv", "restart", "subdiv"), ("flush", "pause", "resume"),
+        ("early", "flush", "early"), ("pause", "flush", "resume"), ("restart", "flush", "flush"), ("flush", "early", "restart")]
+
+
 def plan(tier: str):
     items = []
-    n = 3 if tier == "quick" else 4
     combos = [(c, f) for c in CONFIGS for f in FORMATTERS]
     k = 0
-    for ops in scripts(n):
-        triggers = sum(1 for o in ops if o in ("flush", "subdiv", "none", "restart"))
-        if len(ops) <= (2 if tier == "quick" else 3):
-            chosen = combos
-        else:
-            # longer scripts: only those that can trigger a write, one configuration each (cycling through all of them)
-            if not triggers:
+    if tier == "quick":
+        for ops in scripts(1):
+            for config, fmt in combos:
+                items.append(("g1", (ops, config, fmt), 3000, 0))
+        for ops in scripts(2):
+            if len(ops) < 2:
                 continue
             k += 1
-            chosen = [combos[k % len(combos)]] if tier == "quick" else combos[k % 3::3]
-        for config, fmt in chosen:
-            if "subdiv" in config and "subdiv" not in ops and len(ops) > 1 and tier == "quick":
+            chosen = combos[k % 4::4] if ops in HOT2 else [combos[k % len(combos)]]
+            for config, fmt in chosen:
+                items.append(("g1", (ops, config, fmt), 3000, 0))
+        for ops in HOT3:
+            k += 1
+            for config, fmt in combos[k % 6::6]:
+                items.append(("g1", (ops, config, fmt), 3000, 0))
+    else:
+        for ops in scripts(4):
+            triggers = sum(1 for o in ops if o in ("flush", "subdiv", "none", "restart"))
+            if len(ops) <= 2:
+                chosen = combos
+            elif not triggers:
                 continue
-            items.append(("g1", (ops, config, fmt), 3000 if tier == "quick" else 40000, 0))
+            else:
+                k += 1
+                chosen = combos[k % 3::3] if len(ops) == 3 else [combos[k % len(combos)]]
+            for config, fmt in chosen:
+                items.append(("g1", (ops, config, fmt), 40000, 0))
     # line level, bounded preemptions: scripts with a write pending at stop or at a second trigger
     hot = [("flush",), ("flush", "flush"), ("flush", "early"), ("subdiv", "early"), ("flush", "none")]
     for ops in hot:
         for config, fmt in (("all", "raw"), ("two+subdiv", "quicklogger"), ("all+subdiv", "json")):
             if tier == "quick":
-                items.append(("g2", (ops, config, fmt), 1, 2000))
+                if (config, fmt) == ("all", "raw") or ops in (("flush", "flush"),):
+                    items.append(("g2", (ops, config, fmt), 1, 2000))
             else:
                 items.append(("g2", (ops, config, fmt), 2, 20000))
     if tier == "thorough":
         items.append(("g2", (("flush", "flush"), "all", "raw"), 3, 150000))
+        items.append(("g2", (("flush", "restart", "flush"), "all", "raw"), 2, 60000))
         for ops in scripts(2):
             items.append(("g2", (ops, "two", "raw"), 1, 20000))
     return items
